@@ -417,11 +417,13 @@ func (e *Engine) intrinsic(st *State, fn *ssa.Function, args []Value, ci ssa.Val
 		e.finish(st, ci, r, fd)
 		return true
 	case "(time.Time).UnixNano":
-		if os.Getenv("GOSYM_TIME") == "const" {
-			e.finish(st, ci, Const(64, 5), fd)
+		// wall-clock timestamps only end up in diagnostic header fields
+		// ("UnreliableTime"): a fixed, realistic value; VERIF_TIME=symbolic makes it a variable
+		if os.Getenv("VERIF_TIME") == "symbolic" {
+			e.finish(st, ci, e.newVar(st, "nanotime", 64), fd)
 			return true
 		}
-		e.finish(st, ci, e.newVar(st, "nanotime", 64), fd)
+		e.finish(st, ci, Const(64, 1600000000000000000), fd)
 		return true
 	case "math.Ceil":
 		e.finish(st, ci, math.Ceil(args[0].(float64)), fd)
